@@ -24,6 +24,48 @@ def calls(o):
     return {x[1] for x in o if x[0] == 'call'}
 
 
+def narrowing(ctx, P, F, du, cfg, cs, ret, some_blocks, sinks):
+    if not ret:
+        ctx.ob('C07.r2', F.name, 'the peer set is narrowed to the agreeing peers before the next check point is counted', False, at=some_blocks[0][1], retain_sites=0)
+        return
+    rb_ = ret[0][0]
+    allne = [c for c in cs if c[2] in ('Ne', 'Eq') and 'HashMap::len' in calls(org(du, c[4])) | calls(org(du, c[3]))
+             and any(k.endswith('Option::unwrap_or') or k.endswith('Iterator>::max') for k in calls(org(du, c[3])) | calls(org(du, c[4])))]
+    sb = some_blocks[0][0]
+    if not allne:
+        # no all-agree shortcut: retain must lie on every path into the Some assignment
+        ctx.ob('C07.r2', F.name, 'the peer set is narrowed to the agreeing peers before the next check point is counted',
+               cfg.dominates(rb_, sb), at=some_blocks[0][1])
+    else:
+        c = allne[0]
+        nb = c[0]
+        blk = F.blocks[nb]
+        tgt_skip = None
+        if blk.term.kind == 'switchInt':
+            # edge on which the counts are equal (everyone agreed): cmp Ne -> case 0, cmp Eq -> otherwise
+            for cval, tgt in blk.term.cases:
+                if (c[2] == 'Ne' and cval == 0) or (c[2] == 'Eq' and cval != 0 and cval is not None):
+                    tgt_skip = tgt
+            if tgt_skip is None:
+                tgt_skip = blk.term.otherwise if c[2] == 'Eq' else None
+        others = [t for t in cfg.succ.get(nb, []) if t != tgt_skip]
+        reach2 = cfg.reachable_from(others, removed_nodes={rb_, nb}) if others else set()
+        ctx.ob('C07.r2', F.name, 'the peer set is narrowed to the agreeing peers before the next check point is counted (retain may be skipped only when count_max == peers_with_data.len())',
+               cfg.dominates(nb, sb) and tgt_skip is not None and sb not in reach2, at=ret[0][1].span)
+    rc = None
+    for x in P.closures_of(F):
+        if P.call_sites(x, lambda k, t: k.endswith('slice::get')) and P.call_sites(x, lambda k, t: k in ('<Byte32 as PartialEq>::eq', '<&Byte32 as PartialEq>::eq')) and 'bool' in x.ret:
+            rc = x
+    if rc is None:
+        ctx.ob('C07.r2', F.name, 'retain keeps exactly the peers whose check point at the index equals the quorum value', False, at=ret[0][1].span)
+    else:
+        ctx.guard('C07.r2', rc, lambda k, t: k in ('<Byte32 as PartialEq>::eq', '<&Byte32 as PartialEq>::eq'), 'true', ctx.success_sinks(rc), gname='check_points.get(index) == Some(cp)')
+    # the vector that is written is one of the retained peers'
+    ctx.ob('C07.r2', F.name, 'the finalized values are taken from a peer that survived the narrowing',
+           du.from_call(F.blocks[sinks[0][0]].term.args[2], lambda k: k in ('HashMap::into_values', 'HashMap::values', 'HashMap::iter', 'HashMap::into_iter')), at=F.blocks[sinks[0][0]].term.span)
+
+
+
 def run(ctx):
     P = ctx.prog
     ctx.explanation, ctx.not_decided = EXPLANATION, NOT_DECIDED
@@ -93,6 +135,11 @@ def run(ctx):
     reach = cfg.reachable_from([cfg.entry], removed_edges=dec_edges)
     ctx.ob('C07.r2', F.name, 'both writes are reachable only through the Some((index, check_point)) arm', nd >= 1 and all(sb not in reach for sb, _, _ in sinks),
            decisions=nd)
+
+    # narrowing: agreement must hold for EVERY check point since the final one, so after index i has a quorum value cp the peer set
+    # is cut down (HashMap::retain) to the peers that reported cp at i before index i+1 is counted, unless all of them agreed.
+    ret = P.call_sites(F, lambda k, t: k == 'HashMap::retain')
+    narrowing(ctx, P, F, du, cfg, cs, ret, some_blocks, sinks)
 
     # r3 append-only
     uc = F.blocks[sinks[0][0]].term
